@@ -65,6 +65,8 @@ def run(ctx):
     # a file system that returns short reads before EOF; a transform that failed in an earlier cached run
     midrun_rt.short_read_check(ctx, ctx.pick(24, 300))
     midrun_rt.failing_transform_cache_check(ctx, ctx.pick(12, 120))
+    midrun_rt.cached_transform_length_check(ctx, ctx.pick(10, 100))
+    midrun_rt.symlink_target_rewrite_cache_check(ctx, ctx.pick(10, 100))
 
     # transform dimension: `$IN` temp copies with equal base names in several directories on a multi-threaded sequential pool,
     # and programs that fail (exit status / killed by a signal, with and without partial output) for some of the files
